@@ -411,7 +411,11 @@ def build(spec, log, asynchronous, consumer_modes=None, faults=None, wrap_fn=Non
         elif k == "sink":
             c = Consumer(log, i, consumer_modes.get(i, "sync"), fail_at=faults.get(i, ()))
             b.consumers[i] = c
-            s = ups[0].sink(c)
+            if i % 3 == 2:      # sink(func, *args, **kwargs): extras are handed to func
+                c.extra = ((5,), {"tag": i})
+                s = ups[0].sink(c, 5, tag=i)
+            else:
+                s = ups[0].sink(c)
         elif k == "buffer":
             s = ups[0].buffer(p["n"])
         elif k == "delay":
@@ -421,7 +425,11 @@ def build(spec, log, asynchronous, consumer_modes=None, faults=None, wrap_fn=Non
         elif k == "map_async":
             j = Jobs(log, i, FUNCS[p["f"]], fail_at=faults.get(i, ()))
             b.jobs[i] = j
-            s = ups[0].map_async(j, parallelism=p["par"])
+            if i % 2:           # map_async(func, *args, **kwargs)
+                j.extra = ((3,), {"tag": i})
+                s = ups[0].map_async(j, 3, parallelism=p["par"], tag=i)
+            else:
+                s = ups[0].map_async(j, parallelism=p["par"])
         elif k == "timed_window":
             s = ups[0].timed_window(p["i"])
         elif k == "timed_window_unique":
